@@ -23,6 +23,9 @@ Record ccall := {
   cc_hbs : list hv; cc_commits : list bool;
   cc_started : list part; cc_consumed : list (part * nat); cc_produce : list part;
   cc_errs : list (part * (nat * nat));  (* partition-consumer errors served while the claim lived: read from Errors() / not *)
+  cc_reported : bool;               (* a refused commit is answered with an error the offset manager reports (pom.handleError) *)
+  cc_mid : list part;               (* blocks of refused Commit() calls made by the handler during the session *)
+  cc_pomerrs : nat;                 (* offset-manager errors reported during the call (observed: refused blocks) *)
   cc_fired : bool;                 (* the steady-state trigger was pulled before Consume returned *)
   (* observed *)
   cc_main : list event; cc_claims : list (part * list event); cc_hbids : list (Z * Z) }.
@@ -100,6 +103,7 @@ Definition running_chunk (c : ccall) (plan : list part) : list input :=
   map (go c) (cc_started c)
   ++ flat_map (fun pn => repeat (IDeliver (fst pn)) (snd pn)) (cc_consumed c)
   ++ flat_map (fun pe => repeat (IClaimError (fst pe) true) (fst (snd pe)) ++ repeat (IClaimError (fst pe) false) (snd (snd pe))) (cc_errs c)
+  ++ map (fun p => IPomError p false) (cc_mid c)
   ++ trig_inputs c
   ++ map IClaimReturn (cc_started c)
   ++ map (go c) (filter (faulty c) rest)
@@ -132,7 +136,7 @@ Definition chunk (c : ccall) (w : world) (d : dst) : list input * dst :=
   | PReleasing => (trig_inputs c ++ [ICleanup], d)   (* a trigger pulled while Setup was failing *)
   | PCommit _ =>
     let '(v, r) := pop (d_commits d) true in
-    ([ICommit v], {| d_coords := d_coords d; d_joins := d_joins d; d_syncs := d_syncs d; d_fetches := d_fetches d; d_commits := r; d_njoin := d_njoin d |})
+    ((if negb v && cc_reported c then map (fun b => IPomError (fst b) false) (dirty_blocks (s_claims w)) else []) ++ [ICommit v], {| d_coords := d_coords d; d_joins := d_joins d; d_syncs := d_syncs d; d_fetches := d_fetches d; d_commits := r; d_njoin := d_njoin d |})
   | PHbStop => ([IHbStop], d)
   end.
 
@@ -176,7 +180,8 @@ Definition claims_ok (tr : list event) (obs : list (part * list event)) : bool :
 Definition err_count (p : part) (d : bool) (tr : list event) : nat :=
   length (filter (fun e => match e with EvClaimError q b => Z.eqb p q && Bool.eqb b d | _ => false end) tr).
 Definition errs_ok (tr : list event) (c : ccall) : bool :=
-  forallb (fun pe => Nat.eqb (err_count (fst pe) true tr) (fst (snd pe)) && Nat.eqb (err_count (fst pe) false tr) (snd (snd pe))) (cc_errs c).
+  forallb (fun pe => Nat.eqb (err_count (fst pe) true tr) (fst (snd pe)) && Nat.eqb (err_count (fst pe) false tr) (snd (snd pe))) (cc_errs c)
+  && Nat.eqb (length (filter (fun e => match e with EvPomError _ _ => true | _ => false end) tr)) (cc_pomerrs c).
 Definition call_ok (tr : list event) (c : ccall) : bool :=
   ev_list_eqb (main_proj tr) (cc_main c) && claims_ok tr (cc_claims c) && list_eqb zz_eqb (hb_ids tr []) (cc_hbids c) && errs_ok tr c.
 
